@@ -136,7 +136,33 @@ var neighbourPairs = [][2]string{{"CValue", "IValue"}, {"IValue", "AValue"}, {"A
 	{"CRValue", "IRValue"}, {"IRValue", "ARValue"}, {"MCValue", "MIValue"}, {"MIValue", "MAValue"}, {"MACValue", "MPRValue"}, {"MAVValue", "MACValue"}, {"MPRValue", "MUIValue"}, {"MUIValue", "MSValue"},
 	{"CValue", "MCValue"}, {"IValue", "MIValue"}, {"AValue", "MAValue"}, {"AVValue", "MAVValue"}, {"SValue", "MSValue"}, {"CRValue", "MCValue"}}
 
+// heldReport is a report built earlier whose fields are looked at again after other reports were built.
+type heldReport struct {
+	rep  lib.Report
+	snap map[string]string
+	c    Case
+}
+
+func (h *heldReport) recheck(w *W) {
+	if h == nil || h.snap == nil {
+		return
+	}
+	w.Eval(1)
+	now, _ := h.rep.Flatten()
+	for k, v := range h.snap {
+		if now[k] != v {
+			h.c.Args["held_report"] = "re-read after later reports were built"
+			w.Violate(Violation{Monitor: "C17", Check: "a report keeps showing its own metrics object after other reports have been built (field " + k + ")", Case: h.c, Observed: now[k], Expected: v})
+			return
+		}
+	}
+}
+
 func checkReport(w *W, st *c17stats, o lib.Obj, s string, langName string, withLang bool) {
+	checkReportHold(w, st, o, s, langName, withLang, nil)
+}
+
+func checkReportHold(w *W, st *c17stats, o lib.Obj, s string, langName string, withLang bool, hold **heldReport) {
 	w.Eval(1)
 	c := decodeCase(o.Kind, s, false)
 	c.Type = "report"
@@ -147,6 +173,10 @@ func checkReport(w *W, st *c17stats, o lib.Obj, s string, langName string, withL
 		return
 	}
 	got, odd := rep.Flatten()
+	if hold != nil {
+		(*hold).recheck(w) // the report built before this one
+		*hold = &heldReport{rep: rep, snap: got, c: c}
+	}
 	exp := expectReport(o, langName)
 	for path, want := range exp {
 		g, ok := got[path]
@@ -207,6 +237,8 @@ func runC17(r *Run) int {
 	variants := r.Pick(6, 24)
 	r.Parallel(2*nBase3, 8, func(w *W, idx int) {
 		rng := r.Rng(uint64(idx) + 1)
+		var held *heldReport
+		defer func() { held.recheck(w) }()
 		for k := 0; k < variants; k++ {
 			v := newV3(idx/nBase3, idx%nBase3)
 			// the vector's own level cycles through base / temporal / environmental, so that reports of a
@@ -216,7 +248,7 @@ func runC17(r *Run) int {
 			respell(&v, vl, rng)
 			for level := vl; level < 3; level++ {
 				s := render3(&v, vl, nil)
-				o, err, pan := lib.Decode(lib.Kind3(level), s, false)
+				o, err, pan := lib.DecodeAuto(lib.Kind3(level), s)
 				if err != nil || pan != nil || o.IsNil() {
 					w.Count("valid_vector_not_decoded")
 					continue
@@ -224,7 +256,7 @@ func runC17(r *Run) int {
 				// English, Japanese, one other language, and the default (no option)
 				langs := []string{"en", "ja", reportLangs[2+rng.IntN(len(reportLangs)-2)]}
 				for _, l := range langs {
-					checkReport(w, st, o, s, l, true)
+					checkReportHold(w, st, o, s, l, true, &held)
 				}
 				if rng.IntN(4) == 0 {
 					checkReport(w, st, o, s, "en", false)
@@ -269,7 +301,7 @@ func runC17(r *Run) int {
 	if r.Counter("valid_vector_not_decoded") > 0 {
 		r.Inconclusive("%d valid vectors were not decoded", r.Counter("valid_vector_not_decoded"))
 	}
-	return r.Finish("all 2 x 2,592 base vectors, each as a base-only, a temporal-level and an environmental-level vector (seeded optional metrics; variants cycle through the three), decoded at every admitting decoder, x report level x {English, Japanese, one of und/fr/de-CH/zh-Hant-TW/ko/enm/jam, default}; every exported field of the three report structs is enumerated by reflection (embedded reports included, i.e. shadowed fields through their full path) and compared with the harness's wiring table (field -> metric / level / names function): Version, per-level Vector == that level's Encode(), score fields == FormatFloat(level score), severity fields == that level's severity name, titles and value names through the names package applied to the field's own metric in the requested language; distinct non-trivial = distinct (vector, language, level) reports",
+	return r.Finish("all 2 x 2,592 base vectors, each as a base-only, a temporal-level and an environmental-level vector (seeded optional metrics; variants cycle through the three), decoded at every admitting decoder, x report level x {English, Japanese, one of und/fr/de-CH/zh-Hant-TW/ko/enm/jam, default}; every exported field of the three report structs is enumerated by reflection (embedded reports included, i.e. shadowed fields through their full path) and compared with the harness's wiring table (field -> metric / level / names function): Version, per-level Vector == that level's Encode(), score fields == FormatFloat(level score), severity fields == that level's severity name, titles and value names through the names package applied to the field's own metric in the requested language; every report is re-read after the next reports were built and must be unchanged; distinct non-trivial = distinct (vector, language, level) reports",
 		false, int64(r.SetSize("reports")), 30000, 20000, TrustedBase)
 }
 
@@ -279,7 +311,7 @@ func replayC17(r *Run, c Case) {
 	st := &c17stats{neighbour: map[string]int64{}, unknown: map[string]bool{}}
 	k := kindByName(c.Kind)
 	s := c.GetInput()
-	o, err, _ := lib.Decode(k, s, false)
+	o, err, _ := lib.DecodeAuto(k, s)
 	if err != nil {
 		fmt.Println("replay: vector not decoded:", err)
 		return
